@@ -14,7 +14,7 @@
 
 namespace en
 {
-// "mass" variant: a large capacity c (300 / 5 000 / 70 000), 30*c evicting inserts of fresh keys, and then NOT ONE of the original c
+// "mass" variant: a large capacity c (300 / 5 000 / 70 000 / 140 000), 30*c evicting inserts of fresh keys, and then NOT ONE of the original c
 // residents may be left: for a uniform choice the expected number of survivors is c*exp(-30) < 1e-8.  Catches victim draws that can
 // only reach part of a large cache (truncated random numbers, key-derived slots) which the rank histogram at capacity <= 8 cannot see.
 Result run_stats_rr_mass(const cs::Case& c, const Options& opt)
@@ -22,7 +22,7 @@ Result run_stats_rr_mass(const cs::Case& c, const Options& opt)
     Result     res;
     bx::Config cfg = c.cfg;
     cfg.kind       = bx::K_RR;
-    const size_t cap = cfg.cap <= 4 ? 300 : cfg.cap <= 7 ? 5000 : 70000;
+    const size_t cap = cfg.cap <= 3 ? 300 : cfg.cap <= 5 ? 5000 : cfg.cap <= 7 ? 70000 : 140000;
     cfg.cap        = cap;
     cfg.mlf        = 1.0f;
     vt::reset(cfg.seed);
